@@ -15,7 +15,9 @@ Script (JSON-able):
   ["observe", k, rest] ["retcopy", off, size, rest]
   ["call", kind, to, vexpr, rsz, callee, rest]       kind in CALL CALLCODE DELEGATECALL STATICCALL
   ["create", vexpr, init, rest]
-expr: ["c", n] | ["a", i]   (constant | i-th 32-byte calldata argument of the transaction)
+  ["if", expr, s1, s2]                               JUMPI on a word: s1 if it is non-zero, else s2
+  ["extcode", addr, off, rest]                       EXTCODESIZE addr; EXTCODECOPY of 32 bytes from off over 0xff..ff memory
+expr: ["c", n] | ["a", i] | ["v"]   (constant | i-th 32-byte calldata argument of the transaction | CALLVALUE of the frame)
 """
 import copy
 import random
@@ -31,7 +33,7 @@ ENDS = {"stop": 0, "return": 1, "revert": 2, "invalid": 3}
 CREATE_BASE = 0xAAAA0000 + 1
 NARGS = 2
 CALLDATA = [("c", bytes(32))] + [("s", f"arg{i}", 32) for i in range(NARGS)]
-MARKERS = {3: "static-value-call", 4: "callcode-funds", 5: "retcopy-zero", 6: "depth-nocode"}
+MARKERS = {6: "depth-nocode"}
 
 
 # ------------------------------------------------------------------ work-around for harness/zeval.py
@@ -61,6 +63,8 @@ _zeval.Evaluator.ev = _ev_keepalive
 def _ex(e):
     if e[0] == "c":
         return [("push", e[1])]
+    if e[0] == "v":
+        return ["CALLVALUE"]
     return [("push", 0x20 + 32 * e[1]), "CALLDATALOAD"]
 
 
@@ -110,6 +114,14 @@ def _gen(s, pos, unit):
     if k == "retcopy":
         off, size = s[1], s[2]
         return [("push", size), ("push", off), ("push", OB + pos), "RETURNDATACOPY"] + _gen(s[3], pos + size, unit)
+    if k == "extcode":
+        a, off = s[1], s[2]
+        items = [("push", a), "EXTCODESIZE"] + _mstore_at(OB + pos) + [("push", (1 << 256) - 1)] + _mstore_at(OB + pos + 32)
+        items += [("push", 32), ("push", off), ("push", OB + pos + 32), ("push", a), "EXTCODECOPY"]
+        return items + _gen(s[3], pos + 64, unit)
+    if k == "if":
+        lbl = unit.label("J")
+        return _ex(s[1]) + [("ref", lbl), "JUMPI"] + _gen(s[3], pos, unit) + [("label", lbl)] + _gen(s[2], pos, unit)
     if k == "call":
         _, kind, to, v, rsz, callee, rest, idx = s
         items = [("push", idx), "PUSH0", "MSTORE", ("push", rsz), ("push", OB + pos + 64), ("push", 0x60), "PUSH0"]
@@ -139,6 +151,10 @@ def _assign(s, scripts, existing):
     scripts bottom-up (their code is needed by the creator).  Mutates s."""
     k = s[0]
     if k == "end":
+        return
+    if k == "if":
+        _assign(s[2], scripts, existing)
+        _assign(s[3], scripts, existing)
         return
     if k == "call":
         _, kind, to, v, rsz, callee, rest = s[:7]
@@ -188,33 +204,43 @@ def compile_tree(tree):
 
 # ------------------------------------------------------------------ encoding for the extracted model / spec
 
-def _val(e, args):
+def _val(e, args, cv):
+    if e[0] == "v":
+        return cv
     return e[1] if e[0] == "c" else args[e[1]]
 
 
-def enc_script(s, args):
+def enc_script(s, args, cv):
+    """flat encoding of a script under the valuation `args`; cv = CALLVALUE of the frame the
+    script runs in (the scripts of the Coq side carry concrete words)"""
     k = s[0]
     if k == "end":
         return [0, ENDS[s[1]], s[2]]
     if k == "sstore":
-        return [1, _val(s[1], args), _val(s[2], args)] + enc_script(s[3], args)
+        return [1, _val(s[1], args, cv), _val(s[2], args, cv)] + enc_script(s[3], args, cv)
     if k == "tstore":
-        return [2, _val(s[1], args), _val(s[2], args)] + enc_script(s[3], args)
+        return [2, _val(s[1], args, cv), _val(s[2], args, cv)] + enc_script(s[3], args, cv)
     if k == "log":
-        return [3] + enc_script(s[1], args)
+        return [3] + enc_script(s[1], args, cv)
     if k == "observe":
-        return [4, s[1]] + enc_script(s[2], args)
+        return [4, s[1]] + enc_script(s[2], args, cv)
     if k == "retcopy":
-        return [5, s[1], s[2]] + enc_script(s[3], args)
+        return [5, s[1], s[2]] + enc_script(s[3], args, cv)
+    if k == "extcode":
+        return [9, s[1], s[2]] + enc_script(s[3], args, cv)
     if k == "call":
         _, kind, to, v, rsz, callee, rest, idx = s
-        vv = _val(v, args) if kind in ("CALL", "CALLCODE") else 0
-        return [6, KINDS[kind], to, vv, rsz] + enc_script(callee, args) + enc_script(rest, args)
+        vv = _val(v, args, cv) if kind in ("CALL", "CALLCODE") else 0
+        sub_cv = cv if kind == "DELEGATECALL" else vv
+        return [6, KINDS[kind], to, vv, rsz] + enc_script(callee, args, sub_cv) + enc_script(rest, args, cv)
+    if k == "if":
+        return [8, _val(s[1], args, cv)] + enc_script(s[2], args, cv) + enc_script(s[3], args, cv)
     if k == "create":
         _, v, init, rest, codehex = s
         code = bytes.fromhex(codehex)
         zero = [0] * len(args)      # creation frames have no calldata: every argument reads 0
-        return [7, _val(v, args), len(code)] + list(code) + enc_script(init, zero) + enc_script(rest, args)
+        vv = _val(v, args, cv)
+        return [7, vv, len(code)] + list(code) + enc_script(init, zero, vv) + enc_script(rest, args, cv)
     raise ValueError(k)
 
 
@@ -228,7 +254,7 @@ def enc_input(t, accounts, scn, inp):
     for a in addrs:
         c = accounts.get(a)
         out += [a, bal.get(a, 0), 0 if c is None else 1, len(c or b"")] + list(c or b"") + [0]
-    return out + enc_script(t, args)
+    return out + enc_script(t, args, inp["value"])
 
 
 class _Rd(refevm._Rd):
@@ -292,6 +318,8 @@ def _expr(r, lo=False):
     c = r.random()
     if c < 0.3 and not lo:      # storage keys stay concrete: a symbolic base slot is outside halmos' storage model (C08)
         return ["a", r.randrange(NARGS)]
+    if c < 0.36 and not lo:
+        return ["v"]
     return ["c", r.choice([0, 0, 1, 5, 1000, 10 ** 18] if not lo else [0, 1, 2, 3])]
 
 
@@ -302,14 +330,19 @@ def gen_script(r, depth, in_init=False, after_call=False):
 
 
 def _const_only(e):
-    return e if e[0] == "c" else ["c", 7]
+    return e if e[0] in ("c", "v") else ["c", 7]
 
 
 def _gen_items(r, depth, n, in_init, after_call, tag):
     if n == 0:
         ek = r.choice(["return", "return", "return", "revert", "revert", "invalid", "stop"])
         return ["end", ek, tag]
-    choices = ["sstore", "sstore", "tstore", "observe", "observe"]
+    if r.random() < 0.1:
+        # a fork on a symbolic word of the input (inside init code: the value sent along): halmos explores both sides
+        cond = ["v"] if in_init or r.random() < 0.2 else ["a", r.randrange(NARGS)]
+        return ["if", cond, _gen_items(r, depth, n - 1, in_init, after_call, tag),
+                _gen_items(r, depth, n - 1, in_init, after_call, tag ^ 0x5555)]
+    choices = ["sstore", "sstore", "tstore", "observe", "observe", "extcode"]
     if depth > 0:
         choices += ["call", "call", "call", "create"]
     if after_call:
@@ -328,6 +361,10 @@ def _gen_items(r, depth, n, in_init, after_call, tag):
         return ["observe", r.choice([0, 1, 2]), _gen_items(r, depth, n - 1, in_init, after_call, tag)]
     if k == "retcopy":
         return ["retcopy", r.choice([0, 0, 32, 1, 64]), r.choice([0, 32, 32, 33, 64]), _gen_items(r, depth, n - 1, in_init, after_call, tag)]
+    if k == "extcode":
+        # an account with code, the executing one, one without account, one that a CREATE of the tree may have produced
+        a = r.choice(POOL + [THIS, NOACC, NOACC, CREATE_BASE + 1])
+        return ["extcode", a, r.choice([0, 0, 5, 31, 40, 1000]), _gen_items(r, depth, n - 1, in_init, after_call, tag)]
     if k == "call":
         kind = r.choice(["CALL", "CALL", "CALLCODE", "DELEGATECALL", "STATICCALL"])
         to = r.choice(POOL + POOL + [THIS, NOACC])
@@ -340,6 +377,48 @@ def _gen_items(r, depth, n, in_init, after_call, tag):
     raise ValueError(k)
 
 
+def gen_callfail(r):
+    """caller: [store;] call of a callee with >= 2 FAILING paths; observe; store; observe; ... --
+    a failed frame must leave the world as it was on EVERY path of the callee, also while the
+    caller goes on writing after the first of them has been explored"""
+    def failing(tag):
+        body = ["end", r.choice(["revert", "revert", "invalid"]), tag]
+        for _ in range(r.choice([0, 1, 1, 2])):
+            body = [r.choice(["sstore", "tstore"]), ["c", r.choice([0, 1, 2])], ["c", r.choice([5, 1000, 77])], body]
+        return body
+
+    def leaf(tag):
+        if r.random() < 0.8:
+            return failing(tag)
+        return ["sstore", ["c", r.choice([0, 1])], ["c", 9], ["end", "return", tag]]
+
+    def forked(tag):
+        inner = ["if", ["a", r.randrange(NARGS)], leaf(tag + 1), failing(tag + 2)] if r.random() < 0.4 else failing(tag + 1)
+        return ["if", ["a", r.randrange(NARGS)], failing(tag), inner]
+
+    t0 = r.randrange(1, 1 << 15)
+    kind = r.choice(["CALL", "CALL", "DELEGATECALL", "CALLCODE", "STATICCALL"])
+    slot = r.choice([0, 1, 2])
+    st = r.choice(["sstore", "sstore", "tstore"])
+    rest = ["observe", slot, [st, ["c", slot], ["c", r.choice([7, 1000])], ["observe", slot, ["end", r.choice(["return", "return", "revert"]), t0 + 3]]]]
+    if r.random() < 0.4:       # a second failing call: its rollback must keep the caller's own write
+        rest = ["observe", slot, [st, ["c", slot], ["c", 7],
+                ["call", r.choice(["CALL", "DELEGATECALL"]), r.choice(POOL), ["c", 0], 32, forked(t0 + 10),
+                 ["observe", slot, [st, ["c", slot], ["c", 8], ["observe", slot, ["end", "return", t0 + 6]]]]]]]
+    tree = ["call", kind, r.choice(POOL), ["c", 0] if r.random() < 0.7 else ["a", 0], r.choice([0, 32, 64]), forked(t0), rest]
+    if r.random() < 0.5:
+        tree = [st, ["c", slot], ["c", 3], tree]
+    if r.random() < 0.25:
+        # the failing frame is a creation whose init code forks on the value sent along
+        init = ["if", ["v"], failing(t0 + 20), failing(t0 + 21)]
+        tree = ["create", ["a", r.randrange(NARGS)], init, rest]
+        if r.random() < 0.5:
+            tree = [st, ["c", slot], ["c", 3], tree]
+    if r.random() < 0.3:       # the whole thing one frame down
+        tree = ["call", r.choice(["CALL", "DELEGATECALL"]), POOL[0], ["c", 0], 320, tree, ["observe", slot, ["end", "return", t0 + 7]]]
+    return tree
+
+
 def tree_stats(s, acc=None, depth=0):
     acc = acc if acc is not None else {"depth": 0, "calls": 0, "creates": 0, "kinds": set(), "ends": set(), "nodes": 0, "symbolic_value": False}
     acc["nodes"] += 1
@@ -347,6 +426,10 @@ def tree_stats(s, acc=None, depth=0):
     if k == "end":
         acc["ends"].add(s[1])
         return acc
+    if k == "if":
+        acc["forks"] = acc.get("forks", 0) + 1
+        tree_stats(s[2], acc, depth)
+        return tree_stats(s[3], acc, depth)
     if k == "call":
         acc["calls"] += 1
         acc["kinds"].add(s[1])
@@ -363,7 +446,9 @@ def tree_stats(s, acc=None, depth=0):
             acc["symbolic_value"] = True
         tree_stats(s[2], acc, depth + 1)
         return tree_stats(s[3], acc, depth)
-    idx = {"sstore": 3, "tstore": 3, "log": 1, "observe": 2, "retcopy": 3}[k]
+    if k == "extcode":
+        acc["extcode"] = acc.get("extcode", 0) + 1
+    idx = {"sstore": 3, "tstore": 3, "log": 1, "observe": 2, "retcopy": 3, "extcode": 3}[k]
     return tree_stats(s[idx], acc, depth)
 
 
@@ -500,6 +585,9 @@ def _values(s, out):
     k = s[0]
     if k == "end":
         return out
+    if k == "if":
+        _values(s[2], out)
+        return _values(s[3], out)
     if k == "call":
         if s[1] in ("CALL", "CALLCODE"):
             out.append(s[3])
@@ -520,7 +608,7 @@ def boundary_inputs(tree, inputs, rng, limit=6):
     for payer in (THIS, rng.choice(POOL)):
         for base in inputs:
             for e in vals[:3]:
-                v = e[1] if e[0] == "c" else base["args"].get(f"arg{e[1]}", 0)
+                v = e[1] if e[0] == "c" else base["args"].get(f"arg{e[1]}", 0) if e[0] == "a" else base.get("value", 0)
                 if not 0 < v <= (1 << 120) or (payer, v) in seen:
                     continue
                 seen.add((payer, v))
@@ -531,6 +619,31 @@ def boundary_inputs(tree, inputs, rng, limit=6):
                 if len(out) >= limit:
                     return out[:limit]
     return out[:limit]
+
+
+def shared_objects(paths):
+    """mutable network-state objects (the dicts of code / storage / transient storage and the
+    StorageData objects in them) that more than one reported path holds a reference to, looked at
+    when the exploration is over.  Theorem C09_paths_separate: in the exploration model no two
+    explored paths hold an object in common."""
+    seen, out = {}, []
+    for i, p in enumerate(paths):
+        ex = p.ex
+        objs = [("code", ex.code), ("storage", ex.storage), ("transient_storage", ex.transient_storage)]
+        objs += [(f"storage[{_addr(k)}]", v) for k, v in ex.storage.items()]
+        objs += [(f"transient_storage[{_addr(k)}]", v) for k, v in ex.transient_storage.items()]
+        for name, o in objs:
+            first = seen.setdefault(id(o), (i, name))
+            if first[0] != i:
+                out.append(f"path {first[0]} ({paths[first[0]].kind}) and path {i} ({p.kind}) both hold the object {first[1]}")
+    return out
+
+
+def _addr(k):
+    try:
+        return hex(k.as_long())
+    except Exception:  # noqa: BLE001
+        return str(k)[:24]
 
 
 def check_tree(task):
@@ -552,7 +665,8 @@ def check_tree(task):
         calls += [("c09_model", e), ("c09_spec", e)]
     res = m.batch(calls) if calls else []
     out = {"n_paths": len(paths), "kinds": [p.kind for p in paths], "n_inputs": len(inputs), "flags": {k: v for k, v in flags.items() if k != "output"},
-           "impl_vs_ref": [], "impl_vs_model": [], "spec_vs_ref": [], "evaluated": 0, "markers": {}, "model_paths": {}, "clean_inputs": 0}
+           "impl_vs_ref": [], "impl_vs_model": [], "spec_vs_ref": [], "evaluated": 0, "markers": {}, "model_paths": {}, "clean_inputs": 0,
+           "shared_objects": shared_objects(paths)[:4]}
     stuck = [p.kind for p in paths if p.kind.startswith("stuck")]
     flagged = bool(stuck or flags["bounded_loops"] or flags["depth_cut"] or flags["crashed"])
     for k, (inp, ref) in enumerate(zip(inputs, refs)):
